@@ -489,13 +489,17 @@ def gen(ctx, i, cls):
     elif rng.random() < 0.2:
         id_a, id_b = "contiguous", "contiguous"        # same numbers in both lists, different particles
     Pa = _positions(rng, na, pos_kind, box, centres)
-    dfa = _make_list(rng, na, tomos_a, ori_a, Pa, shift_amp, id_a, int_xyz=(cls == "big_shifts"))
+    # one list freshly picked / recentred (all shifts exactly 0) while the other carries shifts: complete positions must still be used for both
+    zr = rng.random()
+    amp_a = 0.0 if zr < 0.10 else shift_amp
+    amp_b = 0.0 if 0.10 <= zr < 0.16 else shift_amp
+    dfa = _make_list(rng, na, tomos_a, ori_a, Pa, amp_a, id_a, int_xyz=(cls == "big_shifts"))
     Pb = _positions(rng, nb, pos_kind, box, centres)
     paired_src = None
     if cls == "clustered_paired" and rng.random() < 0.6:      # list b = partners displaced from particles of list a
         paired_src = rng.integers(0, na, nb)
         Pb = gens.positions(dfa)[paired_src] + rng.normal(0, float(rng.choice([0.5, 5.0])), (nb, 3))
-    dfb = _make_list(rng, nb, tomos_b, ori_b, Pb, shift_amp, id_b, int_xyz=(cls == "big_shifts"))
+    dfb = _make_list(rng, nb, tomos_b, ori_b, Pb, amp_b, id_b, int_xyz=(cls == "big_shifts"))
     if paired_src is not None:                  # a partner lies in the tomogram of its source where list b has that tomogram
         ts = dfa["tomo_id"].to_numpy()[paired_src]
         tb = dfb["tomo_id"].to_numpy().copy()
